@@ -4,7 +4,7 @@ ENGINES = [
 ]
 NOTES = "All checks: ./run.sh <id> quick|thorough rebuilds the harness against /repo's working tree (replace directive) and rewrites evidence/<id>.json. known_findings.json is read-only at run time."
 NOT_YET = {}
-ENGINES.append({"name": "E2-regen", "path": "/verif/internal/regen, /verif/drivers", "serves_properties": ["C01", "C03", "C04", "C05", "C09", "C14", "C15", "C20"],
+ENGINES.append({"name": "E2-regen", "path": "/verif/internal/regen, /verif/drivers", "serves_properties": ["C01", "C02", "C03", "C04", "C05", "C09", "C14", "C15", "C20"],
      "kind_free_text": "regenerate-compile-drive pipeline: specs are generated in process by the generator of the tree under check into a scratch module, compiled with a driver and every case of the bounded space is executed on the regenerated code"})
 CHECKS["C12"] = dict(
     category="exploration", engine="E1-enum",
@@ -98,4 +98,11 @@ CHECKS["C15"] = dict(
     technique="exhaustive single-fault (thorough: pairwise) injection at every position of valid requests against a regenerated server, judged by a stage model",
     text="Six valid request shapes produced by the regenerated client (JSON body with parameters in all four locations and an apiKey requirement, form, optional JSON/text/empty body, multipart) are mutated by every single fault: 5 methods, 6 paths, 7 raw paths with malformed escapes, 28 parameter/credential faults, 7 content types, truncation and read error at every byte offset of the body, Content-Length mismatches, trailing data, 14 JSON token rewrites, 1e5-deep nesting, nil body, x handler outcomes {ok, declared default, error, not implemented}: 1108 requests; thorough adds every pair of faults at different positions and stages (3994). Oracle: no panic escapes ServeHTTP, exactly one response, status class of the earliest failing stage (404/405, 401, 400, 400/415), handler invoked iff no earlier stage failed, handler outcomes passed through.",
     note="Trusted: the stage model in drivers/c15 and the fault classification (benign faults only check consistency). Requests are hand-built *http.Request values (bypassing net/http's validation), no sockets. Random requests and other specs are not driven.",
+)
+
+CHECKS["C02"] = dict(
+    category="exploration", engine="E2-regen",
+    technique="enumeration of programs (hostile-name matrix, corpus, shape fixtures) x feature configurations, each generated by the generator under check and compiled by the real Go compiler",
+    text="1741 (quick) / ~7000 (thorough) generated packages: a hostile-name matrix (21 name positions x 91 names: keywords, digits-first, quotes, backslash, backquote, newline, Unicode, empty, names of generated identifiers / imported packages / template variables; 15 collision pairs x 6 positions), every non-empty corpus spec x {default, all} (thorough: + client-only, server-only, large specs), the feature-subset sweep on a feature-rich spec x convenient errors on/off (quick: <= 2 or >= 10 of the 11 features, thorough: all 2048 subsets) and 5 shape fixtures. Oracle: generation ends with an ordinary error, or every written package builds with `go build` (packages with generated test files are also type-checked through `go vet`); a panic, ErrGoFormat or a compile error is a violation.",
+    note="Trusted: the Go toolchain. Five known-finding classes (names colliding with fixed generated identifiers, properties named like generated methods, newline in a name, pattern responses sharing a schema, global security + webhooks), each matched by position and name so that any other failure is reported. Random specs are replaced by the matrices.",
 )
